@@ -95,6 +95,9 @@ def main(argv):
         harness_fault = "tsdriver missing after successful build"
     # (if the Lean build is broken the driver may be absent or stale: the property module still
     #  runs its oracle on the implementation; model comparisons are skipped when ctx.driver is None)
+    # coroutines abandoned by a deliberately failed restore are finalised by the GC; their "no running event loop"
+    # complaints are harness noise, not results
+    sys.unraisablehook = lambda *a, **k: None
     try:
         common.import_repo()
         if replay:
